@@ -51,7 +51,20 @@ const (
 	c09Garbage        // answer with a length prefix out of range
 	c09Refuse         // refuse the connection
 	c09Stall          // never read: writes block until the write deadline
+	c09Notify         // answer, then (first connection only) send the reconnect notification and close
 )
+
+var c09Notified, c09Accepted int32
+
+// the server's close notification (what Protocol.GetCloseMsg produces): id 0, "_reconnect_"
+func c09ReconnectMsg() []byte {
+	rsp := requestf.ResponsePacket{IVersion: 1, IRequestId: 0, SResultDesc: reconnectMsg}
+	b := codec.NewBuffer()
+	_ = rsp.WriteTo(b)
+	body := b.ToBytes()
+	n := len(body) + 4
+	return append([]byte{byte(n >> 24), byte(n >> 16), byte(n >> 8), byte(n)}, body...)
+}
 
 var (
 	c09Mode     int
@@ -137,6 +150,14 @@ func c09Serve(c *c09Conn, lateBy time.Duration) {
 			return
 		case c09Garbage:
 			c.toClient <- []byte{0x7f, 0xff, 0xff, 0xff, 1, 2, 3}
+		case c09Notify:
+			c.toClient <- c08Reply(p.IRequestId, int8(p.IRequestId))
+			if atomic.AddInt32(&c09Notified, 1) == 1 {
+				c.toClient <- c09ReconnectMsg()
+				time.Sleep(200 * time.Millisecond)
+				close(c.peerClosed)
+				return
+			}
 		}
 	}
 }
@@ -190,6 +211,7 @@ func c09NativeServer() (addr string) {
 			if err != nil {
 				return
 			}
+			atomic.AddInt32(&c09Accepted, 1)
 			go func(c net.Conn) {
 				var buf []byte
 				tmp := make([]byte, 4096)
@@ -221,6 +243,14 @@ func c09NativeServer() (addr string) {
 							return
 						case c09Garbage:
 							c.Write([]byte{0x7f, 0xff, 0xff, 0xff, 1, 2, 3})
+						case c09Notify:
+							c.Write(c08Reply(p.IRequestId, int8(p.IRequestId)))
+							if atomic.AddInt32(&c09Notified, 1) == 1 {
+								c.Write(c09ReconnectMsg())
+								time.Sleep(200 * time.Millisecond)
+								c.Close()
+								return
+							}
 						}
 					}
 				}
